@@ -174,13 +174,13 @@ Fixpoint access_spec (acc : list node) (ref : value) : E value :=
       | VUndef | VNull => if is_nullsafe a then eret VNull else efail e_nullref
       | VList _ li =>
           match oi with
-          | Some i => if (i =? -1)%Z then efail e_index else access_spec rest (list_index li i)
+          | Some i => access_spec rest (list_index li i)      (* every integer is an index ... *)
           | None => efail e_index
           end
       | VMap _ m =>
-          match k with
-          | [] => efail e_key
-          | _ => access_spec rest (map_key m k)
+          match oi with
+          | None => access_spec rest (map_key m k)            (* ... and every string a key *)
+          | Some _ => efail e_key
           end
       | _ => efail e_noncollection
       end
